@@ -4,6 +4,7 @@
 import Model.HopLemmas
 import Model.Device
 import Model.Proto.Xreq
+import Model.Proto.RawRecv
 namespace Props.C09
 open Model Model.Hop
 
@@ -277,6 +278,38 @@ theorem xreq_forwards_each_message_once_in_order (s : Proto.Xreq.State) (hr : Pr
     Proto.Xreq.line s = s.asked ∧ (s.handed.map (·.2)) <+: s.asked :=
   ⟨Proto.Xreq.line_is_what_was_asked s hr, Proto.Xreq.taken_is_a_prefix_of_asked s hr⟩
 
+
+/-- the receive side of the raw request-id sockets a device reads replies and responses from (XREQ, XSURVEYOR;
+    `Model/Proto/RawRecv.lean`): in every state the socket can reach — any order of arrivals on any pipes, Recvs, pipe
+    removals, queue-length changes and Close — what Recv returned so far, then the queue, then what the receivers hold
+    is, with header and body glued together again, in order part of what was read from the pipes: every message is
+    delivered at most once, in arrival order (per connection: the peer's send order), and nothing is invented -/
+theorem rawrecv_delivers_in_order_at_most_once (s : Proto.RawRecv.State) (hr : Proto.RawRecv.Reach s) :
+    ((Proto.RawRecv.line s).map Proto.RawRecv.glue).Sublist s.rin :=
+  (Proto.RawRecv.reach_inv s hr).order
+
+/-- … and what Recv returns is split exactly at byte four: the header is the four-byte id the message arrived with -/
+theorem rawrecv_header_is_the_first_four_bytes (s : Proto.RawRecv.State) (hr : Proto.RawRecv.Reach s) :
+    ∀ x ∈ s.rout, x.2.1.length = 4 := by
+  intro x hx
+  exact (Proto.RawRecv.reach_inv s hr).hdr4 x (by simp [Proto.RawRecv.line, hx])
+
+/-- a body too short to carry an id is read and dropped: it is never queued, held or returned -/
+theorem rawrecv_drops_short_bodies (s : Proto.RawRecv.State) (p : Nat) (b : Bytes) (hs : b.length < 4)
+    (hf : s.backlog.find? (fun pb => !(s.held.any (fun x => x.1 == pb.1))) = some (p, b)) :
+    ∃ s', Proto.RawRecv.nextBacklog s = some (s', []) ∧ Proto.RawRecv.line s' = Proto.RawRecv.line s ∧ s'.rin = s.rin ++ [(p, b)] := by
+  refine ⟨{ s with backlog := s.backlog.erase (p, b), rin := s.rin ++ [(p, b)] }, ?_, rfl, rfl⟩
+  unfold Proto.RawRecv.nextBacklog
+  rw [hf]
+  simp only [hs, if_true]
+
+/-- non-vacuity: the invariant is satisfiable with traffic in every position (a returned message, a queued one, a held
+    one, and a short body that was read and dropped in between) -/
+example : Proto.RawRecv.Inv { rout := [(1, ([0x80, 0, 0, 1], [0xaa]))], recvQ := [(2, ([0x80, 0, 0, 2], []))],
+                              held := [(1, ([0x80, 0, 0, 3], [7]))],
+                              rin := [(1, [0x80, 0, 0, 1, 0xaa]), (1, [0x80]), (2, [0x80, 0, 0, 2]), (1, [0x80, 0, 0, 3, 7])] } :=
+  ⟨by decide, by decide⟩
+example : Proto.RawRecv.Reach Proto.RawRecv.init := Proto.RawRecv.Reach.init
 
 /-- forwarding loops die out: each crossing adds one word, so after ttl+1 crossings it is dropped -/
 theorem loop_dies (P : HopSite) (hwf : WellFormed P) (ttl : Nat) (hdr0 : Bytes) (ws : List Word) (idw : Word)
